@@ -279,6 +279,16 @@ struct C11 : Property
 					ctx.fail("C11:bad-length-accepted", "op %zu: set_string_len(len=%d) returned %d", oi, bad, rc);
 				ctx.probe("set.refused_length");
 				cov += "|refused";
+				// the string setters applied to a node that is not a string: refused (documented: returns 0), node untouched
+				struct json_object *other = (bad & 1) ? LIB(json_object_new_int64(1234567)) : LIB(json_tokener_parse("[1,\"x\"]"));
+				if (other)
+				{
+					std::string was = typed_dump(other);
+					int r2 = (bad & 1) ? LIB(json_object_set_string(other, "zz")) : LIB(json_object_set_string_len(other, "zzzzzzzzzzzzzzzzzzzz", 20));
+					if (r2 != 0 || typed_dump(other) != was)
+						ctx.fail("C11:set-on-non-string", "op %zu: a string setter applied to a non-string node returned %d; node %s -> %s", oi, r2, was.c_str(), typed_dump(other).c_str());
+					LIBV(json_object_put(other));
+				}
 			}
 			else if (op.kind == "copy")
 			{
